@@ -28,7 +28,8 @@ type Ctx struct {
 	Fset    *token.FileSet
 	Pkgs    map[string]*packages.Package // by import path, module packages only
 	immGlob map[*ssa.Global]bool
-	renamed []string            // anchors found by type after a rename (anchors.go)
+	renamed []string // anchors found by type after a rename (anchors.go)
+	inRole  bool
 	All     []*packages.Package // every package with syntax (deps too)
 	Prog    *ssa.Program
 	SSA     map[string]*ssa.Package // by import path (module + deps that have SSA)
